@@ -794,14 +794,39 @@ def rule_rescale(ctx):
         key = "%s (%s)" % (fn_key(fn), fn_loc(fn).split("/")[-1].split(":")[0])
         res.instance("%s : rescales alpha and rho" % key)
         touches = any(x.get("k") == "Field" and x["name"] == "sep_hyperplane" for x in walk(fn["body"]))
+        c = fn["crate"]
+        variants = set()
+        for x in walk(fn["body"]):
+            q = None
+            if x.get("k") == "Let":
+                q = x.get("pat")
+            if x.get("k") == "Match":
+                for a_ in x["arms"]:
+                    qq = a_["pat"]
+                    while qq is not None and qq.get("k") == "Ref":
+                        qq = qq.get("pat")
+                    if qq is not None and qq.get("k") in ("TupleStruct", "Struct", "Path"):
+                        variants.add((c.dfn(qq.get("def")) or {}).get("name"))
+            while q is not None and q.get("k") == "Ref":
+                q = q.get("pat")
+            if q is not None and q.get("k") in ("TupleStruct", "Struct"):
+                variants.add((c.dfn(q.get("def")) or {}).get("name"))
         if touches:
             res.ok()
             res.sample({"fn": key, "also": "sep_hyperplane"})
+            # the support vectors of a non-linear kernel were selected with an absolute threshold on the unscaled
+            # coefficients; the decision function zips them with the *rescaled* coefficients above the same threshold
+            res.instance("%s : support vectors re-selected after the rescaling" % key)
+            if "WeightedCombination" in variants:
+                res.ok()
+            else:
+                res.violate("%s : support-vectors-not-reselected" % key, "alpha is rescaled after the solver selected the support vectors (abs(alpha) above an absolute threshold), and weighted_sum pairs the stored vectors with the rescaled coefficients above the same threshold: coefficients that cross the threshold by the rescaling shift the pairing, so support vectors get other samples' coefficients", fn_loc(fn))
         else:
+            res.instance("%s : support vectors re-selected after the rescaling" % key)
             res.violate("%s : hyperplane-not-rescaled" % key, "alpha and rho are rescaled after the solver returned, but the pre-combined linear hyperplane (built from the unscaled alpha) is left as it was: with a linear kernel the decision value is w.x - rho with w and rho on different scales", fn_loc(fn))
     if n < 1:
         res.missing_anchor("the nu-SVC fit routine that rescales alpha and rho by 1/r")
-    return res.finish(1)
+    return res.finish(2)
 
 
 rule_memorder = layout.make_rule("R-C13-memorder", "raw memory-order buffers (as_slice_memory_order, into_raw_vec, as_ptr) of records, targets and kernel matrices are used by position only behind an is_standard_layout() test", lambda f: f["d"]["krate"] in ("linfa_svm", "linfa_kernel"), "linfa-svm and linfa-kernel")
@@ -979,6 +1004,93 @@ def rule_reselect(ctx):
     return res.finish(1)
 
 
+def rule_islinear(ctx):
+    """solve() pre-combines the support vectors into one weight vector, and weighted_sum evaluates w.x, when the kernel
+    `is_linear()`: that is the decision function only for K(x, y) = <x, y>.  A kernel with a constant term (polynomial of
+    degree one, c != 0) is linear *in the features* but K(x, y) = <x, y> + c; where the coefficients do not sum to zero
+    (one-class) the constant is lost."""
+    res = RuleResult("R-C13-islinear", "KernelMethod::is_linear is true for the Linear variant only (the consumers take it to mean K(x, y) = <x, y>)")
+    F = ctx.facts()
+    fns = [f for f in F.all_fns() if f["d"]["krate"] == "linfa_kernel" and f["d"]["name"] == "is_linear" and (f["d"].get("self_adt") or "").endswith("KernelMethod")]
+    if not fns:
+        res.missing_anchor("KernelMethod::is_linear")
+    for fn in fns:
+        c = fn["crate"]
+        key = fn_key(fn)
+        res.instance(key)
+        trues = []
+        decided = False
+        for y in walk(fn["body"]):
+            if y.get("k") != "Match":
+                continue
+            for a in y["arms"]:
+                body = strip(a["body"])
+                while body.get("k") == "Block" and body.get("e") is not None:
+                    body = strip(body["e"])
+                if body.get("k") == "Lit" and str(body.get("v")) == "true":
+                    decided = True
+                    pats = [a["pat"]]
+                    while pats:
+                        q = pats.pop()
+                        while q.get("k") == "Ref":
+                            q = q.get("pat")
+                        if q.get("k") == "Or":
+                            pats.extend(q.get("pats") or [])
+                        else:
+                            trues.append((c.dfn(q.get("def")) or {}).get("name") or q.get("k"))
+                elif body.get("k") == "Lit":
+                    decided = True
+                elif body.get("k") not in ("Lit",) and a.get("guard") is None and body.get("k") in ("Binary", "MethodCall", "If"):
+                    trues.append("<computed: %s>" % body.get("k"))
+                    decided = True
+        if not decided:
+            res.undecided("%s : shape" % key, "is_linear is not a match on the kernel variant with literal arms (fail closed)", fn_loc(fn))
+        elif set(trues) <= {"Linear"} and trues:
+            res.ok()
+        else:
+            other = [t for t in trues if t != "Linear"]
+            res.violate("%s : nonlinear-kernel-declared-linear" % key, "is_linear() is also true for %s: the solver then stores one pre-combined weight vector and the decision function evaluates <w, x>, which is not sum_i alpha_i K(x_i, x) for a kernel with a constant or non-linear term" % other, fn_loc(fn))
+    return res.finish(1)
+
+
+def rule_decision(ctx):
+    """'The decision value of any sample equals sum_i alpha_i*K(x_i, x) - rho': every calling form of predict - the batch
+    form, the owned and the borrowed single-sample forms that a macro generates per float type - subtracts rho from
+    weighted_sum."""
+    from .layout import with_parents
+    res = RuleResult("R-C13-decision", "every predict form of Svm computes weighted_sum(x) - rho (batch, owned and borrowed single-sample forms, all float types)")
+    F = ctx.facts()
+    n = 0
+    for fn in F.all_fns():
+        d = fn["d"]
+        if d["krate"] != "linfa_svm" or d["name"] not in ("predict", "predict_inplace") or not (d.get("self_adt") or "").endswith("Svm"):
+            continue
+        c = fn["crate"]
+        r = Render(c)
+        for y, anc in with_parents(fn["body"]):
+            if y.get("k") != "MethodCall" or y["name"] != "weighted_sum":
+                continue
+            n += 1
+            key = "%s[%s]" % (fn_key(fn), (fn.get("inputs") or ["", ""])[1].replace(" ", "")[:40] if len(fn.get("inputs") or []) > 1 else "")
+            res.instance("%s : weighted_sum site" % key)
+            i = len(anc) - 1
+            while i >= 0 and anc[i].get("k") in ("Ref", "Unary", "Cast"):
+                i -= 1
+            par = anc[i] if i >= 0 else {}
+            has_rho = lambda e: any(z.get("k") == "Field" and z["name"] == "rho" for z in walk(e))
+            if par.get("k") == "Binary" and par["op"] == "-" and has_rho(par["r"]) and any(z is y for z in walk(par["l"])):
+                res.ok()
+            elif par.get("k") == "Binary" and par["op"] == "+" and (has_rho(par["r"]) or has_rho(par["l"])):
+                res.violate("%s : rho-added" % key, "this predict form computes `%s`: rho is added instead of subtracted, so it differs from the other calling forms by 2*rho" % r.e(par)[:60], fn_loc(fn, y["ln"]))
+            elif not any(has_rho(a) for a in anc[max(0, len(anc) - 4):]):
+                res.violate("%s : rho-missing" % key, "this predict form returns weighted_sum(x) without subtracting rho: it differs from the other calling forms by rho", fn_loc(fn, y["ln"]))
+            else:
+                res.undecided("%s : decision-form" % key, "how rho enters `%s` was not classified (fail closed)" % r.e(par)[:60], fn_loc(fn, y["ln"]))
+    if n < 6:
+        res.missing_anchor("weighted_sum sites in the predict forms of Svm (found %d)" % n)
+    return res.finish(8)
+
+
 def rule_nusetup(ctx):
     """The nu formulations with two classes of variables (nu-SVC: the two labels; nu-SVR: alpha and alpha*) have a second
     equality constraint, sum of all variables = C*nu*l, besides y^T alpha = const; only the nu variant of the solver
@@ -1057,7 +1169,7 @@ def rule_nusetup(ctx):
 def rules(tier):
     from . import carry, c04
     from . import precision
-    return [rule_nusetup, rule_reselect, rule_swap, rule_bound, rule_space, rule_sv, rule_sib, rule_snapshot, rule_rho, rule_rescale, rule_memorder, rule_extent, rule_kernel,
+    return [rule_nusetup, rule_reselect, rule_islinear, rule_decision, rule_swap, rule_bound, rule_space, rule_sv, rule_sib, rule_snapshot, rule_rho, rule_rescale, rule_memorder, rule_extent, rule_kernel,
             carry.make_clone_rule("R-C13-clone", {"linfa_svm", "linfa_kernel"}, 6), carry.make_setter_rule("R-C13-override", {"linfa_svm"}, 6), c04.make_carry_rule("R-C13-carry", {"SvmParams"}, 6),
             precision.make_rule("R-C13-precision", lambda f: f["d"]["krate"] in ("linfa_svm", "linfa_kernel"), 100, "linfa-svm and linfa-kernel"),
             carry.make_accessor_rule("R-C13-accessor", {"linfa_svm", "linfa_kernel"}, 3), carry.make_ctor_rule("R-C13-ctor", {"linfa_svm", "linfa_kernel"}, 3)]
